@@ -144,6 +144,28 @@ def struct_program(rng):
             t1, s1, c1, _ = atom()
             t2, s2, c2, _ = atom(allow_const=not c1)
             return "bin:%s:%s:%s:%s" % (lt, o[0], t1, t2), "%s = %s %s %s;" % (ls, s1, o[1], s2)
+        if k < 0.62:
+            # stage 8: a linear expression — every operator has an atomic operand; at least one `x ∘ (e)`
+            def pair():
+                while True:
+                    o = rng.choice(OPS)
+                    t1, s1, c1, n1 = atom()
+                    t2, s2, c2, n2 = atom(allow_const=not c1)
+                    if o[0] == "or" and ((t1.startswith("r") and n2 == 0) or (t2.startswith("r") and n1 == 0)):
+                        continue            # `X | 0` is the register itself (no code): not a computation
+                    return ["P", t1, o[0], t2], "%s %s %s" % (s1, o[1], s2)
+            def lexpr(d, need_right):
+                if d == 0:
+                    return pair()
+                o = rng.choice(OPS)
+                t, s_, _, _ = atom()
+                if need_right or rng.random() < 0.5:
+                    et, es = lexpr(d - 1, False)
+                    return ["R", t, o[0]] + et, "%s %s (%s)" % (s_, o[1], es)
+                et, es = lexpr(d - 1, need_right)
+                return ["L"] + et + [o[0], t], "(%s) %s %s" % (es, o[1], s_)
+            et, es = lexpr(rng.randint(1, 3), True)
+            return "lin:%s:%s" % (lt, ":".join(et)), "%s = %s;" % (ls, es)
         if k < 0.66:
             # stage 7: a chain of two to four operators, grouped to the left (parentheses where C's precedence
             # would group otherwise)
@@ -315,6 +337,7 @@ def run(chk):
             chk.count("struct_wide")
             chk.count("struct_wide_statements", sum(1 for t in toks if t.startswith("w") and ":" in t and t.split(":")[0] in ("wasg", "wbin", "woas")))
         chk.count("struct_chain_statements", sum(1 for t in toks if t.startswith("chain:")))
+        chk.count("struct_linear_statements", sum(1 for t in toks if t.startswith("lin:")))
         ptoks = toks[1:] if toks and toks[0].startswith("abs=") else toks
         chk.case(key=src, nontrivial=any(t in ("if", "ife", "wh", "do", "for") for t in toks))
         for t in toks:
